@@ -200,6 +200,37 @@ def run(ctx):
               construct='scan of position tests')
     ctx.assume('bisect.bisect_right semantics; the line-start table _pos_new_lines is the sorted '
                'list of line starts beginning with 0 (value-level, not decided)')
+    # ---- R20f: one position map per document, built with the configured offsets
+    ctx.rule('R20f', 'every LineNumbersCalculator the package builds is given the three configured offsets '
+                     '(line_number_offset, first_line_column_offset, column_offset): a second map with default '
+                     'offsets would number the same position differently', 1)
+    n_lc = 0
+    for mod_ in sorted(repo.modules.values(), key=lambda m_: m_.name):
+        if mod_.name.endswith('__main__'):
+            continue
+        for c_ in ast.walk(mod_.tree):
+            if isinstance(c_, ast.Call) and call_name(c_) == 'LineNumbersCalculator':
+                n_lc += 1
+                need = {'line_number_offset', 'first_line_column_offset', 'column_offset'}
+                # bind positional arguments to the parameter names of LineNumbersCalculator.__init__
+                um_ = repo.mod('pylatexenc._util')
+                ini_ = um_.methods('LineNumbersCalculator').get('__init__')
+                pn_ = [a_.arg for a_ in ini_.args.args][1:] if ini_ is not None else []
+                bound = dict(zip(pn_, c_.args))
+                bound.update((k.arg, k.value) for k in c_.keywords if k.arg)
+                given = set(bound)
+                fromcfg = all(any(isinstance(x, ast.Attribute) and x.attr == k_ for x in ast.walk(v_))
+                              for k_, v_ in bound.items() if k_ in need)
+                ctx.decide('R20f', need <= given and fromcfg, mod_, c_,
+                           'built with the configured offsets: ' + short(c_, 60),
+                           '%s builds a line/column map without the configured offsets (%s): positions located through '
+                           'it (an error annotated at construction time, say) are numbered from line 1, column 0 '
+                           'whatever the walker was configured with, and the walker does not correct them afterwards'
+                           % (mod_.relpath, short(c_, 70)), construct='%s: %s' % (mod_.relpath, short(c_, 50)))
+    if n_lc == 0:
+        ctx.unknown('R20f', repo.mod('pylatexenc._util'), None, 'no construction of LineNumbersCalculator found',
+                    construct='LineNumbersCalculator constructions')
+
     return 'other', _expl()
 
 
